@@ -3,6 +3,7 @@ package rules
 import (
 	"fmt"
 	"go/token"
+	"go/types"
 	"sort"
 	"strings"
 
@@ -19,7 +20,7 @@ func init() {
 		Doc:  "name lower-casing dataflow; defaults-before-call option order; nil option / nil value guards; tag writer/reader agreement; signature rejections; struct walk",
 		Run:  runOpts,
 		Floor: map[string]int{
-			"LOWER": 4, "OPTORDER": 3, "NILOPT": 2, "REFLVALID": 3, "TAGS": 4, "REJECT": 5, "STRUCTWALK": 6,
+			"LOWER": 4, "OPTORDER": 3, "NILOPT": 2, "NILOPT-F": 3, "REFLVALID": 3, "TAGS": 4, "REJECT": 5, "STRUCTWALK": 6,
 		},
 	})
 }
@@ -197,12 +198,13 @@ func runOpts(c *Ctx) {
 	merger := c.role("OPTORDER", "defaultsMerger")
 	applier := c.role("OPTORDER", "optionApplier")
 	if merger != nil && applier != nil {
-		var ac ssa.CallInstruction
+		var acs []ssa.CallInstruction
 		for _, ci := range core.Calls(merger) {
 			if ci.Common().StaticCallee() == applier {
-				ac = ci
+				acs = append(acs, ci)
 			}
 		}
+		ac := c.oneSite("OPTORDER", "defaultsMerger", "option applier call", acs)
 		if ac == nil {
 			c.R.Undecided("OPTORDER", "merger|call", "defaultsMerger", p.Pos(merger.Pos()), "defaults merger does not call the option applier")
 		} else {
@@ -303,6 +305,9 @@ func runOpts(c *Ctx) {
 			c.R.Undecided("OPTORDER", "applier|call", "optionApplier", p.Pos(applier.Pos()), "no dynamic option call found")
 		}
 	}
+
+	// =============== NILOPT-F: no nil *Func enters a converter list (the graph builders dereference every entry)
+	c.runNilFunc()
 
 	// =============== REFLVALID
 	nRV := 0
@@ -1204,13 +1209,16 @@ func (c *Ctx) runStructWalk(walker *ssa.Function) {
 	}
 	// the per-field append into ValueSet.values
 	var app *ssa.Call
+	var apps []ssa.CallInstruction
 	p.RegionInstrs(walker, func(in ssa.Instruction) {
 		if cl, ok := in.(*ssa.Call); ok && core.CalleeName(cl.Common()) == "builtin.append" {
 			if fr, ok := core.AsFieldLoad(cl.Common().Args[0]); ok && fr.Owner == "ValueSet" && fr.Field == "values" {
 				app = cl
+				apps = append(apps, cl)
 			}
 		}
 	})
+	c.oneSite("STRUCTWALK", "structWalker", "append to the ordered value list", apps)
 	if app == nil {
 		c.R.Undecided("STRUCTWALK", "append", "structWalker", p.Pos(walker.Pos()), "no append to the ordered value list found")
 		return
@@ -1534,4 +1542,130 @@ func (c *Ctx) isValidatingValueOf(h *ssa.Function) bool {
 		}
 	}
 	return len(core.Returns(h)) > 0
+}
+
+// runNilFunc — NILOPT-F. Every element appended to a []*Func in the target package is known to be non-nil at that
+// point: it is the first result of a constructor returning (*Func, error) on that call's nil-error branch (and every
+// nil-error return of an in-target constructor yields a fresh Func), or it was compared with nil on the way. A whole
+// slice spread in (`append(list, more...)`) is accepted only from a list that is itself a converter list of this rule.
+func (c *Ctx) runNilFunc() {
+	p := c.P
+	isFuncPtr := func(t types.Type) bool {
+		pt, ok := t.Underlying().(*types.Pointer)
+		return ok && core.NamedOf(pt.Elem()) == "Func"
+	}
+	isFuncList := func(t types.Type) bool {
+		sl, ok := t.Underlying().(*types.Slice)
+		return ok && isFuncPtr(sl.Elem())
+	}
+	// constructor summary: every return with a nil error constant returns a freshly allocated (non-nil) Func, or the
+	// result of another such constructor
+	var ctorOK func(f *ssa.Function, d int) bool
+	ctorOK = func(f *ssa.Function, d int) bool {
+		if f == nil || len(f.Blocks) == 0 || d > 3 {
+			return false
+		}
+		res := f.Signature.Results()
+		if res.Len() != 2 || !isFuncPtr(res.At(0).Type()) || !isErrorType(res.At(1).Type()) {
+			return false
+		}
+		for _, r := range core.Returns(f) {
+			if len(r.Results) != 2 {
+				return false
+			}
+			if !core.IsNilConst(r.Results[1]) {
+				// an error return: if the error may be nil here the Func must be non-nil as well
+				if cl, ok := core.Strip(r.Results[0]).(*ssa.Extract); ok {
+					if in, ok := cl.Tuple.(*ssa.Call); ok && ctorOK(in.Common().StaticCallee(), d+1) {
+						continue // `return NewFunc(...)` forwarded pair
+					}
+				}
+				if core.IsNilConst(r.Results[0]) {
+					// (nil, err): fine when err is known non-nil on this path
+					if nilCheckLit(core.Lits(core.Guards(r.Block())), r.Results[1], false) {
+						continue
+					}
+					if _, isCall := core.Strip(r.Results[1]).(*ssa.Call); isCall {
+						continue // a freshly built error (fmt.Errorf, errors.New)
+					}
+					return false
+				}
+				continue
+			}
+			v := core.Strip(r.Results[0])
+			if _, fresh := v.(*ssa.Alloc); fresh {
+				continue
+			}
+			if e, ok := v.(*ssa.Extract); ok {
+				if in, ok := e.Tuple.(*ssa.Call); ok && ctorOK(in.Common().StaticCallee(), d+1) && nilCheckLit(core.Lits(core.Guards(r.Block())), errOf(in), true) {
+					continue
+				}
+			}
+			return false
+		}
+		return true
+	}
+	n := 0
+	for _, f := range p.ArgFuncs() {
+		for _, ci := range core.Calls(f, "builtin.append") {
+			cl, ok := ci.(*ssa.Call)
+			if !ok || !isFuncList(cl.Type()) {
+				continue
+			}
+			n++
+			lits := p.ExpandLitsKeep(p.ILits(cl.Block()))
+			key := fmt.Sprintf("%s|append#%d", core.FuncName(f), n)
+			elems := appendedValues(cl)
+			if len(elems) == 0 {
+				// spread of a whole slice
+				src := core.Strip(cl.Common().Args[1])
+				fromList := false
+				if fr, ok := core.AsFieldLoad(src); ok && fr.Owner == "argBuilder" {
+					fromList = true // another converter list of the builder (covered by this rule at its own appends)
+				}
+				c.R.Add("NILOPT-F", key, core.FuncName(f), p.InstrPos(cl), fromList,
+					"a *Func appended to a converter list is known to be non-nil (constructed on a nil-error branch or compared with nil)",
+					ternary(fromList, "spread of the builder's own converter list", "a whole slice "+core.Path(src)+" is appended without looking at its elements"))
+				continue
+			}
+			bad := ""
+			for _, v := range elems {
+				okv := false
+				switch {
+				case nilCheckLit(lits, v, false):
+					okv = true
+				default:
+					for _, sv := range core.Sources(v) {
+						if _, fresh := sv.(*ssa.Alloc); fresh {
+							okv = true
+						}
+						if e, isE := sv.(*ssa.Extract); isE {
+							if in, isC := e.Tuple.(*ssa.Call); isC && in.Common().StaticCallee() != nil && ctorOK(in.Common().StaticCallee(), 0) && nilCheckLit(lits, errOf(in), true) {
+								okv = true
+							}
+						}
+					}
+					if len(core.Sources(v)) != 1 {
+						okv = okv && false
+					}
+				}
+				if !okv {
+					bad = core.Path(v)
+				}
+			}
+			c.R.Add("NILOPT-F", key, core.FuncName(f), p.InstrPos(cl), bad == "",
+				"a *Func appended to a converter list is known to be non-nil (constructed on a nil-error branch or compared with nil)",
+				ternary(bad == "", "every element non-nil", "element "+bad+" may be nil"))
+		}
+	}
+}
+
+// errOf returns the error component extracted from a call returning (T, error), or nil.
+func errOf(call *ssa.Call) ssa.Value {
+	for _, ref := range *call.Referrers() {
+		if e, ok := ref.(*ssa.Extract); ok && isErrorType(e.Type()) {
+			return e
+		}
+	}
+	return nil
 }
